@@ -139,6 +139,17 @@ theorem c19_agent_key_kinds :
     KM.Gen.clientKeyGen.all (fun r => r.2.2.1 == KeyKind.rsa || r.2.2.1 == KeyKind.ecdsa || r.2.2.1 == KeyKind.ed25519) = true := by
   decide
 
+/-- identities that are not certificates — plain keys, and identities of key algorithms the SSH
+library cannot even parse (`deleteDuplicateEntries` skips both) — neither prevent the replacement
+nor are touched, wherever the agent lists them (before or after the old certificate), even when
+they carry the label themselves -/
+theorem c19_agent_foreign (pre post : List Entry) (f new : Entry) (hf : f.isCert = false)
+    (hnd : ((pre ++ f :: post).map Entry.blob).Nodup) (hc : new.isCert = true) :
+    (agentUpsert (pre ++ f :: post) new).filter (isDup new) = [new] ∧
+    f ∈ agentUpsert (pre ++ f :: post) new := by
+  have h := c19_agent (pre ++ f :: post) new hnd hc
+  refine ⟨h.2.1, (h.2.2 f (by simp [isDup, hf])).mpr (by simp)⟩
+
 /-- why the blob hypothesis is there: were the same certificate blob held under two comments,
 `Remove` by blob would delete both -/
 example : agentUpsert [⟨"a".toList, 1, true⟩, ⟨"b".toList, 1, true⟩] ⟨"a".toList, 2, true⟩ =
